@@ -81,6 +81,13 @@ pub fn open_position(
         Ok(positions)
     })?;
 
+    // changes made during this epoch must not alter the epoch's global weight snapshot
+    let epoch_to_snapshot = helpers::get_current_epoch(deps.as_ref())?;
+    crate::execute::snapshot::take_global_weight_snapshot_if_missing(
+        deps.storage,
+        epoch_to_snapshot,
+    )?;
+
     // add the weight to the global weight and the user's weight
     let weight = calculate_weight(unbonding_duration, amount)?;
     GLOBAL_WEIGHT.update::<_, StdError>(deps.storage, |global_weight| {
